@@ -73,13 +73,38 @@ var secretData = []byte("0123456789abcdef0123456789abcdef-this-is-the-secret")
 // the program) and, for random creation, an optional failing random source.
 // runProgram runs one case inside a synctest bubble: a Close (or reader) that blocks forever is then a
 // deterministic "all goroutines in bubble are blocked" deadlock instead of a hung test.
+// hangsC12 counts programs that were given up as never finishing.
+var hangsC12 int
+
 func runProgram(t *testing.T, impl string, p program, faults []int, randFault bool) (res runResult) {
-	defer func() {
-		if pv := recover(); pv != nil {
-			res.problems = append(res.problems, [2]string{"c12-deadlock:" + impl, fmt.Sprintf("the program never finished: %v", pv)})
+	// A goroutine that waits for a sync.Mutex is not "durably blocked" for synctest: a lock left held on an error path
+	// would hang the bubble instead of producing its deadlock panic. A program takes milliseconds; one that does not
+	// finish within 20 s of wall clock on two attempts in a row is reported as never finishing.
+	limit := 20 * time.Second
+	if hangsC12 >= 2 {
+		limit = 3 * time.Second // hangs have been established already: do not spend minutes on their repetitions
+	}
+	for attempt := 0; attempt < 2; attempt++ {
+		done := make(chan runResult, 1)
+		go func() {
+			var rr runResult
+			defer func() {
+				if pv := recover(); pv != nil {
+					rr.problems = append(rr.problems, [2]string{"c12-deadlock:" + impl, fmt.Sprintf("the program never finished: %v", pv)})
+				}
+				done <- rr
+			}()
+			synctest.Test(t, func(t *testing.T) { rr = runProgramInner(impl, p, faults, randFault) })
+		}()
+		select {
+		case rr := <-done:
+			return rr
+		case <-time.After(limit):
 		}
-	}()
-	synctest.Test(t, func(t *testing.T) { res = runProgramInner(impl, p, faults, randFault) })
+	}
+	hangsC12++
+	res.fired = 1
+	res.problems = append(res.problems, [2]string{"c12-deadlock:" + impl, "the program never finished: no result within 20 s of wall clock on two attempts (an operation waits for a lock that an earlier, failed operation left held?)"})
 	return res
 }
 
